@@ -122,3 +122,16 @@ impl Src for ReplaySrc {
 }
 
 pub struct OutsidePrecondition;
+
+/// `Result` -> `Option` without touching `E`: no `Debug` formatting (which `unwrap` drags in)
+/// and no drop glue of the error enum (`BSVErrors` -> io::Error / serde / dyn Error destructors
+/// explode CBMC's symex).  Leaking the error value is irrelevant to every property here.
+pub fn okf<T, E>(r: Result<T, E>) -> Option<T> {
+    match r {
+        Ok(v) => Some(v),
+        Err(e) => {
+            core::mem::forget(e);
+            None
+        }
+    }
+}
